@@ -238,12 +238,14 @@ NOINSTR bool check_canaries(char *user) {
 NOINSTR char *arena_alloc(size_t n) {
 	size_t total = (FRONT + n + 16 + 15) & ~(size_t)15;
 	if (S.plan->free_policy == 1 || S.plan->free_policy == 3) {
-		auto it = S.freelist.find(n);
+		// free lists are per size class (16-byte granules, as in production allocators), not per exact request size
+		auto it = S.freelist.find(total);
 		if (it != S.freelist.end() && !it->second.empty()) {
 			char *user = it->second.back();
 			it->second.pop_back();
 			Hdr *h = (Hdr *)(user - FRONT);
 			h->magic = MAGIC_LIVE;
+			h->size = n;
 			if (S.plan->free_policy == 1) fill_mem(user, n);  // policy 3: the previous owner's bytes stay, as with a production allocator
 			set_canaries(user, n);
 			S.res.lifo_reused++;
@@ -272,7 +274,12 @@ NOINSTR bool in_arena(void *p) { return (char *)p >= ARENA_BASE && (char *)p < A
 NOINSTR void arena_free(char *user) {
 	if (!in_arena(user)) { snprintf(S.res.msg, sizeof S.res.msg, "free of a pointer that malloc never returned"); finish(K_BADFREE, 0); }
 	Hdr *h = (Hdr *)(user - FRONT);
-	if (h->magic == MAGIC_FREE) { snprintf(S.res.msg, sizeof S.res.msg, "double free"); finish(K_BADFREE, 0); }
+	if (h->magic == MAGIC_FREE) {
+		// production allocators do not reliably notice a second free of the same block; under the two policies that model
+		// them the program simply goes on (and what it then computes is compared with the strict reference run)
+		if (S.plan->free_policy == 2 || S.plan->free_policy == 3) { S.res.tolerated_double_free++; return; }
+		snprintf(S.res.msg, sizeof S.res.msg, "double free"); finish(K_BADFREE, 0);
+	}
 	if (h->magic != MAGIC_LIVE) { snprintf(S.res.msg, sizeof S.res.msg, "free of a pointer that is not the start of a block (or header overwritten)"); finish(K_BADFREE, 0); }
 	if (!check_canaries(user)) { snprintf(S.res.msg, sizeof S.res.msg, "heap block of %zu bytes overrun/underrun (detected at free)", (size_t)h->size); finish(K_CANARY, 0); }
 	h->magic = MAGIC_FREE;
@@ -281,7 +288,7 @@ NOINSTR void arena_free(char *user) {
 		// 16 bytes are taken for free-list links - a use after free "works"
 		memset(user, 0xdd, h->size < 16 ? h->size : 16);
 	} else memset(user, 0xdd, h->size);
-	if (S.plan->free_policy == 1 || S.plan->free_policy == 3) S.freelist[h->size].push_back(user);
+	if (S.plan->free_policy == 1 || S.plan->free_policy == 3) S.freelist[h->total].push_back(user);
 }
 
 NOINSTR void check_all_canaries() {
